@@ -586,6 +586,61 @@ def inclusion(run, R="INC"):
             oki = oki and has_once
         run.check(oki, R, R + "|once|marked", pr.loc(), "a file enters the #once set exactly when its AST contains a #once directive",
                   "the #once set is no longer filled on the `contains a DirectiveOnce node` edge")
+    # the #once set lives across all root files, the include stack is per root file
+    pm = run.anchor(R, "asm::parser::parse_many_and_resolve_includes")
+    if pm is not None:
+        calls_p = [(bi, t) for bi, t in pm.calls() if (t.get("resolved") or "").endswith("parse_and_resolve_includes")]
+        oko = len(calls_p) == 1
+        why = "%d call(s) of parse_and_resolve_includes" % len(calls_p)
+        if oko:
+            cb, ct = calls_p[0]
+            loops = [natural_loop(pm, h) for h in sorted(pm.reachable())]
+            loop = set()
+            for l_ in loops:
+                if cb in l_:
+                    loop |= l_
+            def creation_block(op):
+                o = pm.origin_op(op)
+                while o and o[0] in ("ref", "cast"):
+                    o = o[1]
+                if o and o[0] == "call":
+                    return o[2], (o[1].get("callee") or "")
+                if o and o[0] == "multi":
+                    ds = pm.full_defs(o[1])
+                    if len(ds) == 1 and ds[0][0] == "call":
+                        return ds[0][1], (ds[0][2].get("callee") or "")
+                return None, ""
+            ob, oc = creation_block(ct["args"][5])
+            sb, sc = creation_block(ct["args"][4])
+            oko = bool(loop) and ob is not None and "HashSet" in oc and ob not in loop
+            why = "the #once set is created inside the loop over the root files" if ob in loop else "creation of the #once set not found"
+            if oko:
+                oko = sb is not None and sb in loop
+                why = "the include stack is not fresh for every root file"
+        run.check(oko, R, R + "|once|shared-across-roots", pm.loc(), "one #once set for all root files; a fresh include stack per root file",
+                  "parse_many_and_resolve_includes: %s: a #once file included from two root files would be spliced twice (or a legitimate second inclusion rejected as a cycle)" % why)
+    # incbin returns the file's bytes: the data sliced comes from FileServer::get_bytes, not from a text decoding
+    gb_ = run.anchor(R, "eval_fn::eval_builtin_incbin")
+    if gb_ is not None:
+        sl = [(bi, t) for bi, t in gb_.calls() if (t.get("callee") or "") == "std::ops::Index::index" and "Range" in " ".join(t.get("arg_tys", []))]
+        okb = bool(sl)
+        chain = []
+        for bi, t in sl:
+            chain = source_chain(gb_, t["args"][0], 20)
+            txt = " ".join(chain)
+            good = bool(re.search(r"FileServer>?::get_bytes", txt)) and "get_str" not in txt and "as_bytes" not in txt and "from_utf8" not in txt
+            if not good:
+                # through a local helper: its own result must come from get_bytes
+                for c_ in chain:
+                    h = prog.fn(c_)
+                    if h is not None:
+                        hs = " ".join(" ".join(source_chain(h, {"copy": {"l": 0, "p": []}}, 20)) for _ in [0])
+                        rets = [t2 for b2, t2 in h.calls() if t2["dest"]["l"] == 0]
+                        htxt = " ".join((t2.get("resolved") or t2.get("callee") or "") for t2 in rets) + " " + hs
+                        good = bool(re.search(r"FileServer>?::get_bytes", htxt)) and "get_str" not in htxt
+            okb = okb and good
+        run.check(okb, R, R + "|incbin|exact-bytes", gb_.loc(), "incbin slices the bytes delivered by FileServer::get_bytes",
+                  "incbin no longer slices the raw bytes of the file (data comes from `%s`): invalid UTF-8 sequences would be replaced and every later offset shifts" % " <- ".join(chain)[:200])
     # INC4: range tests dominate the slice in the inclusion functions
     for name in ("eval_fn::eval_builtin_incbin", "eval_fn::eval_builtin_incstr"):
         g = run.anchor(R, name)
@@ -607,3 +662,237 @@ def inclusion(run, R="INC"):
         ok = bool(sl) and bool(starts) and bool(ends) and all(any(g.edge_dominates(b, ft, sb) for b, ft, d in starts) and any(g.edge_dominates(b, ft, sb) for b, ft, d in ends) for sb, _ in sl)
         run.check(ok, R, "%s|range|%s" % (R, name.rsplit("::", 1)[-1]), g.loc(), "%s: the slice of the file contents is behind the `start < len` and `end <= len` edges" % name.rsplit("::", 1)[-1],
                   "%s can slice the file contents without having passed both range tests (start after EOF / end after EOF)" % name.rsplit("::", 1)[-1])
+
+
+# ---------------------------------------------------------------------------------------------- overlap checker / fill (C06)
+
+def _deep(f, o, d=6):
+    from rules_sym import deep
+    return deep(f, o, d)
+
+
+def overlap_rules(run, R="OVL"):
+    prog = run.prog
+    ci = run.anchor(R, "OverlapChecker::check_and_insert")
+    co = run.anchor(R, "OverlapChecker::check_overlap")
+    if ci is not None:
+        cc = calls_to(ci, "OverlapChecker::check_overlap")
+        ins = [(bi, t) for bi, t in ci.calls() if re.search(r"Vec::<.*>::insert$", t.get("callee") or "") and _deep(ci, t["args"][0]) == "P1.entries"]
+        ok = len(cc) == 1 and len(ins) == 1
+        why = "%d call(s) of check_overlap, %d insertion(s)" % (len(cc), len(ins))
+        if ok:
+            cb, ct = cc[0]
+            ib, it = ins[0]
+            args = [_deep(ci, a) for a in ct["args"]]
+            ok = args == ["P1", "P4", "P5"]
+            why = "check_overlap is asked about %s" % args
+            idx = _deep(ci, it["args"][1])
+            ent = _deep(ci, it["args"][2], 3)
+            if ok:
+                ok = idx == "OverlapChecker::check_overlap(P1, P4, P5).0" and "position: P4" in ent and "size: P5" in ent
+                why = "inserted at `%s` as `%s`" % (idx, ent)
+            # the match on the overlapping entry
+            if ok:
+                sw = None
+                for b in sorted(ci.reachable()):
+                    tt = ci.blocks[b]["term"]
+                    if tt["k"] == "switch" and op_local(tt["discr"]) is not None:
+                        o = ci.origin_local(op_local(tt["discr"]))
+                        if o[0] == "discr" and _deep(ci, o[1]).startswith("OverlapChecker::check_overlap(P1, P4, P5).1"):
+                            vs = o[2].get("variants") or {}
+                            some = [tg for v, tg in tt["targets"] if vs.get(v) == "Some"] or [tt["otherwise"]]
+                            none = [tg for v, tg in tt["targets"] if vs.get(v) == "None"] or [tt["otherwise"]]
+                            sw = (some[0], none[0], b)
+                ok = sw is not None
+                why = "no match on the overlapping entry"
+                if ok:
+                    from rules_sym import report_error_in_region as rep2
+                    sreg = T.dominated_region(ci, sw[0], sw[2])
+                    ok = rep2(ci, sreg) and err_return_in_region(ci, sreg) and ci.edge_dominates(sw[2], sw[1], ib)
+                    why = "the `overlaps` edge does not report and fail, or the insertion is not confined to the `no overlap` edge"
+        run.check(ok, R, R + "|insert-guarded", ci.loc(), "an item is recorded only on the `no overlap` edge, at the index and with the position/size it was checked with; an overlap is reported and fails",
+                  "OverlapChecker::check_and_insert: %s" % why)
+        # zero-sized items are never recorded
+        okz = False
+        for bi, si, st in ci.stmts():
+            if st["k"] == "assign" and st["rv"]["k"] == "binop" and st["rv"]["op"] in ("Eq", "Ne", "Gt") and {_deep(ci, st["rv"]["l"]), _deep(ci, st["rv"]["r"])} == {"P5", "0_usize"}:
+                tt = ci.blocks[bi]["term"]
+                if tt["k"] == "switch" and ins:
+                    ft = [tg for v, tg in tt["targets"] if v == "0"]
+                    nz_edge = ft[0] if st["rv"]["op"] == "Eq" else tt["otherwise"]
+                    if ft and ci.edge_dominates(bi, nz_edge, ins[0][0]):
+                        okz = True
+        run.check(okz, R, R + "|entries-nonzero", ci.loc(), "only items with bits are recorded, so entries are disjoint intervals and the two neighbours decide",
+                  "OverlapChecker::check_and_insert can record a zero-sized item: an entry without bits at the position of a later write (or between an item and a later write) hides the real neighbours from check_overlap")
+    if co is not None:
+        arms = T.enum_switch_arms(co, "Result")
+        err_entry = None
+        ok_entry = None
+        swb = None
+        for b, a, oth, pl, vs in arms:
+            if "binary_search_by" in _deep(co, {"copy": pl}):
+                err_entry, ok_entry, swb = a.get("Err"), a.get("Ok"), b
+        if err_entry is None:
+            run.violation(R, R + "|neighbours", co.loc(), "mechanism not found: match on the binary search result in check_overlap")
+            return
+        ereg = T.dominated_region(co, err_entry, swb)
+        # neighbour comparisons
+        tests = {}
+        for b in sorted(ereg):
+            for st in co.blocks[b]["stmts"]:
+                if st["k"] == "assign" and st["rv"]["k"] == "binop" and st["rv"]["op"] == "Gt":
+                    l, r = _deep(co, st["rv"]["l"]), _deep(co, st["rv"]["r"])
+                    tt = co.blocks[b]["term"]
+                    if tt["k"] != "switch":
+                        continue
+                    if l == "(P2 Add P3)" and re.match(r"^Index::index\(P1\.entries, .*@Err\.0\)\.position$", r):
+                        tests["next"] = (b, tt["otherwise"])
+                    if re.match(r"^\(Index::index\(P1\.entries, \(.*@Err\.0 Sub 1_usize\)\)\.position Add Index::index\(P1\.entries, \(.*@Err\.0 Sub 1_usize\)\)\.size\)$", l) and r == "P2":
+                        tests["prev"] = (b, tt["otherwise"])
+        okn = "next" in tests and "prev" in tests
+        why = "comparisons found: %s" % sorted(tests)
+        if okn:
+            for k_, (b, te) in tests.items():
+                reg = T.dominated_region(co, te, b)
+                some_ret = any(st["k"] == "assign" and st["rv"]["k"] == "agg" and st["rv"].get("variant") == "Some" for x in reg for st in co.blocks[x]["stmts"])
+                if not some_ret:
+                    okn = False
+                    why = "the `%s` neighbour comparison does not answer with the overlapping entry" % k_
+        if okn:
+            # guards: `i < len` around next, `i > 0` around prev; both guard switches dominate every `None` answer of this arm
+            guards = []
+            for k_, (b, te) in tests.items():
+                g = None
+                for x in sorted(ereg):
+                    tt = co.blocks[x]["term"]
+                    if tt["k"] == "switch" and x != b and co.dominates(x, b):
+                        for st in co.blocks[x]["stmts"]:
+                            if st["k"] == "assign" and st["rv"]["k"] == "binop" and ((k_ == "next" and st["rv"]["op"] == "Lt" and "Vec::len(P1.entries)" == _deep(co, st["rv"]["r"])) or (k_ == "prev" and st["rv"]["op"] == "Gt" and _deep(co, st["rv"]["r"]) == "0_usize")):
+                                g = x
+                guards.append(g)
+            okn = all(g is not None for g in guards)
+            why = "index guards of the neighbour comparisons not found"
+            if okn:
+                # blocks only reachable when size == 0 are exempt (entries-nonzero makes them dead)
+                exempt = set()
+                for bi, si, st in co.stmts():
+                    if st["k"] == "assign" and st["rv"]["k"] == "binop" and st["rv"]["op"] == "Eq" and {_deep(co, st["rv"]["l"]), _deep(co, st["rv"]["r"])} == {"P3", "0_usize"}:
+                        tt = co.blocks[bi]["term"]
+                        if tt["k"] == "switch":
+                            exempt |= T.dominated_region(co, tt["otherwise"], bi)
+                for x in sorted(ereg - exempt):
+                    for st in co.blocks[x]["stmts"]:
+                        if st["k"] == "assign" and st["rv"]["k"] == "agg" and st["rv"].get("variant") == "None":
+                            if not all(co.dominates(g, x) for g in guards):
+                                okn = False
+                                why = "a `no overlap` answer at line %d can be given without having looked at both neighbours" % st["span"]["line"]
+        run.check(okn, R, R + "|neighbours", co.loc(), "when no entry starts at the position, `no overlap` is only answered after comparing with the next entry (position + size > next.position) and the previous one (prev.position + prev.size > position)",
+                  "OverlapChecker::check_overlap: %s" % why)
+        # same position: overlap when both have bits
+        oreg = T.dominated_region(co, ok_entry, swb) if ok_entry is not None else set()
+        oks = any(st["k"] == "assign" and st["rv"]["k"] == "agg" and st["rv"].get("variant") == "Some" for x in oreg for st in co.blocks[x]["stmts"])
+        run.check(oks, R, R + "|same-position", co.loc(), "an entry starting at the same position is an overlap", "an entry at the same position is no longer reported as overlapping")
+
+
+def full_loops(run, fname, R="MPT", what="every bank"):
+    """the loops of `fname` have no early exit: they are left only when their iterator is exhausted"""
+    f = run.anchor(R, fname)
+    if f is None:
+        return
+    n = 0
+    for h in sorted(f.reachable()):
+        loop = natural_loop(f, h)
+        if not loop:
+            continue
+        n += 1
+        bad = []
+        for x in sorted(loop):
+            for s_ in f.succs(x):
+                if s_ in loop or f.blocks[s_]["cleanup"]:
+                    continue
+                tt = f.blocks[x]["term"]
+                okx = False
+                if tt["k"] == "switch" and op_local(tt["discr"]) is not None:
+                    o = f.origin_local(op_local(tt["discr"]))
+                    if o[0] == "discr" and re.search(r"Iterator::next\(", _deep(f, o[1])):
+                        vs = o[2].get("variants") or {}
+                        none = [tg for v, tg in tt["targets"] if vs.get(v) == "None"]
+                        if none and none[0] == s_:
+                            okx = True
+                if tt["k"] in ("assert",) or f.blocks[s_]["term"]["k"] in ("unreachable",):
+                    okx = True
+                if not okx:
+                    # an exit that can only end in `Err` (a rejection) is not an early success
+                    seen = set()
+                    work = [s_]
+                    has_err = has_other = False
+                    while work:
+                        y = work.pop()
+                        if y in seen or y in loop:
+                            continue
+                        seen.add(y)
+                        for st in f.blocks[y]["stmts"]:
+                            if st["k"] == "assign" and st["place"]["l"] == 0 and not st["place"]["p"]:
+                                if st["rv"]["k"] == "agg" and st["rv"].get("variant") == "Err":
+                                    has_err = True
+                                else:
+                                    has_other = True
+                        ty = f.blocks[y]["term"]
+                        if ty["k"] == "call" and ty["dest"]["l"] == 0:
+                            if (ty.get("callee") or "").endswith("FromResidual::from_residual"):
+                                has_err = True
+                            else:
+                                has_other = True
+                        work.extend(z for z in f.succs(y) if not f.blocks[z]["cleanup"])
+                    okx = has_err and not has_other
+                if not okx:
+                    bad.append(f.blocks[x]["term"].get("span", {}).get("line", 0))
+        run.check(not bad, R, "%s|full-loop|%s" % (R, fname.rsplit("::", 1)[-1]), f.loc(), "%s visits %s: its loop is left only when the iterator is exhausted" % (fname.rsplit("::", 1)[-1], what),
+                  "%s leaves its loop early (exit edge(s) near line(s) %s): not %s is visited" % (fname, bad, what))
+    run.check(n >= 1, R, "%s|full-loop|%s|exists" % (R, fname.rsplit("::", 1)[-1]), f.loc(), "loop found", "mechanism not found: loop in %s" % fname)
+
+
+def mesen_header_rule(run, R="MPT"):
+    """Mesen label offsets: the 16-byte header is subtracted from the label's complete file offset (address - bank start +
+    bank output offset), never from a partial sum: a bank may start inside the header while its labels lie beyond it."""
+    prog = run.prog
+    fs = [f for f in prog.real_fns() if "format_mesen_mlb" in (f.raw.get("root") or f.id)]
+    if not fs:
+        run.violation(R, R + "|mesen-header|anchor", "-", "mechanism not found: format_mesen_mlb")
+        return
+    n = 0
+    for g in fs:
+        for bi, t in g.calls():
+            c = t.get("callee") or ""
+            if not (c.endswith("::checked_sub") or c.endswith("::saturating_sub") or c.endswith("::wrapping_sub")) or len(t["args"]) != 2 or const_int(t["args"][1]) != 16:
+                continue
+            n += 1
+            expr = _deep(g, t["args"][0], 10)
+            holder = g
+            hops = 0
+            while re.fullmatch(r"P\d+", expr) and holder.kind == "Closure" and hops < 4:
+                hops += 1
+                par = prog.fn(holder.raw.get("parent"))
+                nxt = None
+                if par is not None:
+                    for b2, t2 in par.calls():
+                        if re.search(r"Option::<T>::(and_then|map)$", t2.get("callee") or "") and len(t2["args"]) == 2:
+                            from mir import closure_of_origin
+                            if closure_of_origin(par.origin_op(t2["args"][1])) == holder.id:
+                                nxt = (par, _deep(par, t2["args"][0], 12))
+                if nxt is None:
+                    break
+                holder, expr = nxt
+            # the label's own address: BigInt::maybe_into of the value parameter of the formatting closure
+            ok = bool(re.search(r"BigInt::maybe_into\(P\d+\)", expr))
+            run.check(ok, R, R + "|mesen-header|" + (g.id.rsplit("::", 2)[-2] + "::" + g.id.rsplit("::", 1)[-1] if g.kind == "Closure" else "fn"), g.loc(t["span"]),
+                      "the header size is subtracted from a value that includes the label's address",
+                      "format_mesen_mlb subtracts the 16-byte header from `%s`, which does not include the label's address: labels of a bank that starts inside the header would be dropped (or misplaced)" % expr[:200])
+    for g in fs:
+        for bi, si, st in g.stmts():
+            if st["k"] == "assign" and st["rv"]["k"] == "binop" and st["rv"]["op"].startswith("Sub") and const_int(st["rv"]["r"]) == 16:
+                n += 1
+                expr = _deep(g, st["rv"]["l"], 10)
+                run.check(bool(re.search(r"BigInt::maybe_into\(P\d+\)", expr)), R, R + "|mesen-header|binop", g.loc(st["span"]), "header subtracted from the full offset",
+                          "format_mesen_mlb subtracts the 16-byte header from `%s`, which does not include the label's address" % expr[:200])
+    run.floor(R, "header subtractions in format_mesen_mlb", n, 1)
